@@ -121,6 +121,7 @@ class World:
         self.has_truth = True   # every document in docs is one of gts (so entry ids can be computed)
         self.sparse = {}        # relative path tuple -> size: files created with truncate() only (no data blocks)
         self.symlinks = {}      # relative path tuple -> relative target path tuple (symbolic link to a regular file)
+        self.modes = {}         # relative path tuple -> permission bits
         self.mounts = []        # relative directory paths on which a fresh tmpfs is mounted before the files are created
 
     def add_file(self, path, content, group=None):
@@ -238,6 +239,8 @@ def gen_world(rng, ntorrents=None, features=()):
                     continue
                 if not w.add_file(path, content):
                     continue
+                if rng.chance(1, 7):
+                    w.modes[path] = rng.choice([0o000, 0o200, 0o111, 0o400])     # permission bits are not access rights (root reads anyway)
                 if rng.chance(1, 6):
                     group[0] += 1
                     w.files[path] = (content, group[0])
@@ -329,6 +332,18 @@ def materialise(w, base):
             os.link(path_bytes(root, tgt), fp)
         else:
             os.symlink(path_bytes(root, tgt), fp)
+    for p in sorted(getattr(w, "fifos", [])):
+        fp = path_bytes(root, p)
+        os.makedirs(os.path.dirname(fp), exist_ok=True)
+        os.mkfifo(fp)
+    for p, tgt in sorted(getattr(w, "dir_links", {}).items()):
+        # a directory given to the tool through a symbolic link (a scan argument that is a link to a directory)
+        fp = path_bytes(root, p)
+        os.makedirs(os.path.dirname(fp), exist_ok=True)
+        os.symlink(path_bytes(root, tgt), fp)
+    for p, mode in sorted(getattr(w, "modes", {}).items()):
+        if os.path.lexists(path_bytes(root, p)):
+            os.chmod(path_bytes(root, p), mode)      # permission bits (the checks run as root: every file stays readable)
     for p, size in sorted(w.sparse.items()):
         fp = path_bytes(root, p)
         os.makedirs(os.path.dirname(fp), exist_ok=True)
@@ -345,13 +360,18 @@ def materialise(w, base):
         tpaths.append(tp)
     return root, tpaths
 
-def snapshot(root, skip=()):
-    """(dirs, files{path tuple: (content, ino)}) below root; `skip`: names the model does not know (ghost links)"""
+def snapshot(root, skip=(), follow=()):
+    """(dirs, files{path tuple: (content, ino)}) below root; `skip`: names the model does not know (ghost links);
+    `follow`: symbolic links to directories that are presented as the directories they lead to (the same files under a
+    second path, with the same identities — what a tool walking `link/` sees)"""
     dirs, files = [], {}
     rb = root.encode()
-    for dp, dn, fn in os.walk(rb):
-        rel = os.path.relpath(dp, rb)
-        comps = () if rel == b"." else tuple(rel.split(b"/"))
+    walks = [(rb, ())] + [(os.path.realpath(path_bytes(root, p)), tuple(p)) for p in follow]
+    import stat as _stat
+    for top, prefix in walks:
+      for dp, dn, fn in os.walk(top):
+        rel = os.path.relpath(dp, top)
+        comps = prefix + (() if rel == b"." else tuple(rel.split(b"/")))
         if comps:
             dirs.append(comps)
         for f in fn:
@@ -359,6 +379,11 @@ def snapshot(root, skip=()):
                 continue
             fp = os.path.join(dp, f)
             st = os.lstat(fp)
+            if not (_stat.S_ISREG(st.st_mode) or _stat.S_ISLNK(st.st_mode)):
+                # a FIFO, socket or device: something that exists and is neither a directory nor a regular file the tool
+                # could read — presented as an empty file, never opened here
+                files[comps + (f,)] = (b"", (st.st_dev, st.st_ino))
+                continue
             if os.path.islink(fp):
                 # a symbolic link to a regular file is, for a tool that opens paths, one more name of that file:
                 # it is presented (to the model too) under the inode and content of its target
@@ -391,6 +416,9 @@ def rel(root, absolute_hex):
 def _limit_memory():
     import resource
     resource.setrlimit(resource.RLIMIT_AS, (2 << 30, 2 << 30))
+    # the tool keeps one file open per worker at a time: a low descriptor limit costs a correct run nothing and makes
+    # descriptor leaks (handles kept across a whole pass) visible
+    resource.setrlimit(resource.RLIMIT_NOFILE, (96, 96))
 
 PROGRESS = re.compile(r"Success: (\d+), Failed: (\d+), Faulted: (\d+), Total: (\d+)")
 
@@ -409,7 +437,8 @@ def execute(w, keep=False, timeout=30):
             fp = path_bytes(root, p)
             os.makedirs(os.path.dirname(fp), exist_ok=True)
             os.symlink(path_bytes(root, tgt), fp)
-        before_dirs, before_files = snapshot(root, set(ghosts))
+        follow = sorted(getattr(w, "dir_links", {}))
+        before_dirs, before_files = snapshot(root, set(ghosts), follow)
         args = [C.TBH, "run", "--export", w.export_arg if w.export_arg is not None else os.path.join(root, *[c.decode("utf-8", "surrogateescape") for c in w.export])]
         scan_args = w.scan_args if w.scan_args is not None else [os.path.join(root, *[c.decode("utf-8", "surrogateescape") for c in s]) for s in w.scan]
         scan_args = [root + "/" + a[len("\x00ABS/"):] if a.startswith("\x00ABS/") else a for a in scan_args]   # (not os.path.join: a leading "/" must stay a redundant separator)
@@ -439,7 +468,7 @@ def execute(w, keep=False, timeout=30):
             err = p.stderr.decode("utf-8", "replace")
         except subprocess.TimeoutExpired as e:
             out, rc, err = (e.stdout or b"").decode("utf-8", "replace"), "timeout", ""
-        after_dirs, after_files = snapshot(root, set(ghosts))
+        after_dirs, after_files = snapshot(root, set(ghosts), follow)
         r = RunResult()
         r.ghost_changed = any((not os.path.islink(path_bytes(root, p))) or os.readlink(path_bytes(root, p)) != path_bytes(root, tgt)
                               for p, tgt in ghosts.items())
@@ -660,7 +689,7 @@ def gen_world_c16(rng, i):
     """argument validation and degenerate-but-loadable torrents"""
     w = gen_world(rng, ntorrents=rng.choice([1, 2]))
     w.scan_args = None           # these worlds spell their arguments themselves
-    k = i % 11
+    k = i % 15
     root_rel = lambda comps: "/".join(c.decode("utf-8", "surrogateescape") for c in comps) or "."      # the sandbox root itself, relatively: "."
     if k == 0:
         w.scan_args = None; w.export_arg = root_rel(w.export); w.tag = "export relative"
@@ -690,6 +719,23 @@ def gen_world_c16(rng, i):
         w.docs = [b"not bencode", b"d4:infod4:name1:aee"]; w.has_truth = False; w.tag = "no loadable torrent"
     elif k == 8:
         w.docs = w.docs + [b"i1e"]; w.tag = "one unloadable torrent among good ones"
+    elif k == 11:
+        # an unloadable file FIRST (a truncated download), then the good ones: each file is loaded on its own
+        w.docs = [w.docs[0][: max(1, len(w.docs[0]) // 2)]] + w.docs; w.tag = "unloadable torrent first"
+    elif k == 12:
+        # the two halves of one good torrent as two files: neither loads
+        d = w.docs[0]; w.docs = [d[: len(d) // 2], d[len(d) // 2:]] + w.docs[1:]; w.tag = "a torrent split over two files"
+        w.has_truth = False
+    elif k == 13:
+        # something that exists and is neither a directory nor a regular file, as a scan directory
+        w.fifos = [(b"bystander", b"pipe")]
+        w.scan.insert(rng.below(len(w.scan) + 1), (b"bystander", b"pipe")); w.tag = "scan is a FIFO"
+    elif k == 14:
+        old = w.export[0]
+        w.fifos = [(b"bystander", b"pipe")]
+        w.export = (b"bystander", b"pipe"); w.tag = "export is a FIFO"
+        w.files = {p: v for p, v in w.files.items() if p[0] != old}
+        w.symlinks = {p: t for p, t in w.symlinks.items() if p[0] != old}
     elif k == 9:
         # enormous declared lengths: nothing on disk has them, the run must simply report the pieces as failed
         big = rng.choice([2**62, 2**63, 2**64 - 1, 2**40])
@@ -996,6 +1042,132 @@ def gen_world_resize_huge(rng):
     w.add_file((b"bystander", b"note.txt"), b"do not touch")
     w.resize = True
     w.tag = "enormous declared length"
+    return w
+
+
+def gen_world_scan_root_link(rng):
+    """C02: a scan argument that is a symbolic link to a directory (`/collection -> /mnt/disk2/collection`); the data is
+    reachable only through it"""
+    w = gen_world(rng, ntorrents=rng.choice([1, 2]))
+    w.scan_args = None; w.ghost_links = {}
+    real = w.scan[0]
+    if real == () or real == w.export:
+        return w
+    link = (b"links", b"to_" + real[-1])
+    w.dirs.add((b"links",))
+    w.dir_links = {link: real}
+    w.scan = [link] + [sd for sd in w.scan[1:] if sd != ()]      # only the link leads to the first scan directory
+    w.tag = "scan directory given through a symbolic link"
+    return w
+
+
+def gen_world_mount_below_scan(rng):
+    """C17 / C02: a file-system boundary strictly BELOW a scan directory (a disk mounted at S/inner); the only copy of
+    the data lives on it"""
+    w = World()
+    ln = rng.range(4, 12)
+    f = TFile(ln, [b"one"], gen_content(rng, ln))
+    g = GT(b"one", rng.choice([2, 3, 4]), [f], False)
+    w.gts = [g]; w.docs = [g.doc]
+    w.dirs.add(w.export)
+    w.scan = [(b"outerm",)]
+    w.mounts = [(b"outerm", b"inner")]
+    w.dirs |= {(b"outerm",), (b"outerm", b"inner"), (b"outerm", b"inner", b"sub")}
+    w.files[(b"outerm", b"inner", b"sub", b"renamed.dat")] = (f.content, None)
+    w.files[(b"outerm", b"plain.txt")] = (b"k", None)
+    w.add_file((b"bystander", b"note.txt"), b"do not touch")
+    w.threads = rng.choice([1, 3])
+    w.tag = "mount point below a scan directory"
+    return w
+
+
+def gen_world_same_dir_many_files(rng):
+    """C05: many files of one NEW, deep directory, one piece each, written by many workers at once under the real OS
+    scheduler (no deterministic scheduling: the window is between two calls the facade does not see)"""
+    w = World()
+    n = rng.range(8, 14)
+    depth = rng.choice([3, 20, 45])
+    files = [TFile(6, [b"lv%02d" % k for k in range(depth)] + [b"f%02d" % i], gen_content(rng, 6)) for i in range(n)]
+    g = GT(b"deep", 6, files, True)
+    w.gts = [g]; w.docs = [g.doc]
+    w.dirs.add(w.export)
+    w.scan = [(b"scan0",)]
+    for i, f in enumerate(files):
+        w.add_file((b"scan0", b"src%02d" % i), f.content)
+    w.add_file((b"bystander", b"note.txt"), b"do not touch")
+    w.threads = 8
+    w.tag = "first writes below a new directory"
+    return w
+
+
+def gen_world_many_short_images(rng):
+    """C14: some hundred export images, all shorter than declared, with the resize flag (every one must be extended; the
+    process may hold only a few descriptors at a time)"""
+    w = World()
+    n = rng.range(110, 160)
+    # (pairwise different lengths: candidates are looked up by length, and a piece spanning twenty files with a hundred
+    #  same-length candidates each would be a search of 100^20 combinations — the tool's design, not this check's subject)
+    files = [TFile(3 + i, [b"d%d" % (i % 5), b"s%03d" % i], gen_content(rng, 3 + i)) for i in range(n)]
+    g = GT(b"manyshort", 4096, files, True)
+    w.gts = [g]; w.docs = [g.doc]
+    w.dirs.add(w.export)
+    w.scan = [(b"scan0",)]
+    w.add_file((b"scan0", b".keep"), b"k")
+    for f in files:
+        w.add_file(tuple(g.target(w.export, f)), f.content[:rng.below(f.length)])
+    w.add_file((b"bystander", b"note.txt"), b"do not touch")
+    w.resize = True
+    w.tag = "many short images"
+    return w
+
+
+def gen_world_linked_cross_seed(rng):
+    """C11 / C04: two cross-seeded torrents whose export images are ONE file (the user hard-linked them); the image holds
+    some verified pieces, the rest comes from a scan copy — writing through one name must not cost the other its data"""
+    w = gen_world_cross_seed(rng)
+    a, b = w.gts
+    grp = 900
+    for f in a.files:
+        pa, pb = tuple(a.target(w.export, f)), tuple(b.target(w.export, f))
+        w.files.pop(pa, None); w.files.pop(pb, None)
+        cut = rng.below(f.length + 1)
+        partial = f.content[:cut] + bytes(f.length - cut)
+        grp += 1
+        w.add_file(pa, partial, grp); w.add_file(pb, partial, grp)
+        # the missing part only as a damaged copy in the scan directory (good tail, bad head)
+        w.files.pop((b"scan0", a.name) + (tuple(f.path) if a.multi else ()), None)
+        w.add_file((b"scan0", b"tail_" + f.path[-1]), corrupt(rng, f.content[:cut]) + f.content[cut:])
+    w.threads = 1
+    w.tag = "hard-linked export images of two cross-seeds"
+    return w
+
+
+def gen_world_short_last_digest(rng):
+    """C01: a metainfo document whose `pieces` string is cut inside the last digest (20*(n-1)+k bytes). It is not
+    well-formed and must not load; if it does, a decoy whose SHA-1 shares the first k bytes must still not be written."""
+    import hashlib
+    w = World()
+    L = 4
+    ln = L * rng.range(2, 4) + rng.range(1, 3)
+    f = TFile(ln, [b"data.bin"], gen_content(rng, ln))
+    g = GT(b"data.bin", L, [f], False)
+    n = len(g.hashes)
+    k = 1
+    good_tail = f.content[(n - 1) * L:]
+    want = g.hashes[-1][:k]
+    decoy_tail = None
+    for t in range(1, 5000):
+        cand = bytes((x + t * (i + 1)) & 0xff for i, x in enumerate(good_tail))
+        if cand != good_tail and all(c != d for c, d in zip(cand, good_tail)) and hashlib.sha1(cand).digest()[:k] == want:
+            decoy_tail = cand; break
+    doc = G.benc(G.meta_doc(name=b"data.bin", piece_length=L, length=ln, hashes=b"".join(g.hashes[:-1]) + want))
+    w.gts = [g]; w.docs = [doc]
+    w.dirs.add(w.export)
+    w.scan = [(b"scan0",)]
+    w.add_file((b"scan0", b"decoy.bin"), f.content[:(n - 1) * L] + (decoy_tail or good_tail))
+    w.add_file((b"bystander", b"note.txt"), b"do not touch")
+    w.has_truth = False
+    w.tag = "last digest cut short"
     return w
 
 
